@@ -252,6 +252,28 @@ impl<'tcx> Cx<'tcx> {
                         o.push(("str", s(String::from_utf8_lossy(bytes).to_string())));
                     }
                 }
+            } else if let ty::Array(elem, _) = inner.kind() {
+                // `&[u8; N]` / `&[u32; N]` literals (usually promoteds): read the bytes of the allocation
+                if matches!(elem.kind(), ty::Uint(_) | ty::Int(_)) {
+                    if let Ok(cv) = c.eval(tcx, tenv, rustc_span::DUMMY_SP) {
+                        if let ConstValue::Scalar(rustc_middle::mir::interpret::Scalar::Ptr(ptr, _)) = cv {
+                            let (prov, offset) = ptr.prov_and_relative_offset();
+                            if let Some(rustc_middle::mir::interpret::GlobalAlloc::Memory(alloc)) = tcx.try_get_global_alloc(prov.alloc_id()) {
+                                let a = alloc.inner();
+                                let off = offset.bytes() as usize;
+                                let len = a.len();
+                                if len >= off && len - off <= 256 && a.provenance().ptrs().is_empty() {
+                                    let bytes = a.inspect_with_uninit_and_ptr_outside_interpreter(off..len);
+                                    let mut hex = String::new();
+                                    for b in bytes {
+                                        let _ = write!(hex, "{:02x}", b);
+                                    }
+                                    o.push(("bytes", s(hex)));
+                                }
+                            }
+                        }
+                    }
+                }
             }
         }
         J::O(o)
